@@ -35,70 +35,80 @@ struct Plan {
     std::vector<WiringPortRef> shapes;
     std::vector<const TSValueTypeMetaData *> input_schemas;
 };
-template <class S> inline int add_input(Wiring &w, Plan &p, const Port<S> &arg) {
-    const auto *expected = schema_descriptor<S>::ts_meta();
+// ParamS: the schema G::compose declares for this Port parameter; ArgS: the schema of the supplied outer port
+// (they differ e.g. for a REF<TS<..>> boundary fed by a plain TS source: adapt_source_for_input inserts the adapter).
+template <class ParamS, class ArgS> inline int add_input(Wiring &w, Plan &p, const Port<ArgS> &arg) {
+    const auto *expected = schema_descriptor<ParamS>::ts_meta();
     WiringPortRef ref = graph_wiring_detail::adapt_source_for_input(w, expected, arg.erased());
     p.shapes.push_back(subgraph_wiring_detail::boundary_shape(ref, p.inputs.size(), {}));
     p.inputs.push_back(std::move(ref));
     p.input_schemas.push_back(expected);
     return 0;
 }
-template <class G, class... S, std::size_t... I>
+template <class G, class... ParamS, std::size_t... I>
 inline auto call_compose(Wiring &cw, const Plan &p, std::index_sequence<I...>) {
-    return G::compose(cw, Port<S>{cw, p.shapes[I]}...);
+    return G::compose(cw, Port<ParamS>{cw, p.shapes[I]}...);
 }
 }  // namespace detail
 
-// OutS: the schema of G's returned port.  S...: the schemas of G::compose's Port parameters (deduced).
-template <class G, class OutS, class... S> Port<OutS> nested_call(Wiring &w, const Port<S> &...args) {
-    detail::Plan plan;
-    [[maybe_unused]] int expand[] = {0, detail::add_input<S>(w, plan, args)...};
+// G: sub-graph definition; OutS: schema of G's returned port; ParamS...: schemas of G::compose's Port parameters.
+template <class G, class OutS, class... ParamS> struct nested_fn {
+    template <class... ArgS> static Port<OutS> call(Wiring &w, const Port<ArgS> &...args) {
+        static_assert(sizeof...(ArgS) == sizeof...(ParamS), "one outer port per Port parameter");
+        detail::Plan plan;
+        [[maybe_unused]] int expand[] = {0, detail::add_input<ParamS, ArgS>(w, plan, args)...};
 
-    Wiring cw = w.child_wiring();
-    auto out = detail::call_compose<G, S...>(cw, plan, std::index_sequence_for<S...>{});
-    CompiledSubGraph compiled = std::move(cw).finish_subgraph(out.erased(), std::move(plan.input_schemas));
-    compiled.graph_builder.label(std::string{G::name});
+        Wiring cw = w.child_wiring();
+        auto out = detail::call_compose<G, ParamS...>(cw, plan, std::index_sequence_for<ParamS...>{});
+        CompiledSubGraph compiled = std::move(cw).finish_subgraph(out.erased(), std::move(plan.input_schemas));
+        compiled.graph_builder.label(std::string{G::name});
 
-    std::vector<WiringPortRef> inputs = std::move(plan.inputs);
-    for (WiringPortRef &captured : compiled.captured_inputs) inputs.push_back(std::move(captured));
-    compiled.captured_inputs.clear();
-    for (NestedServiceInput &external : compiled.external_service_inputs)
-        inputs.push_back(subgraph_wiring_detail::materialize_external_service_input(w, std::move(external)));
-    compiled.external_service_inputs.clear();
+        std::vector<WiringPortRef> inputs = std::move(plan.inputs);
+        for (WiringPortRef &captured : compiled.captured_inputs) inputs.push_back(std::move(captured));
+        compiled.captured_inputs.clear();
+        for (NestedServiceInput &external : compiled.external_service_inputs)
+            inputs.push_back(subgraph_wiring_detail::materialize_external_service_input(w, std::move(external)));
+        compiled.external_service_inputs.clear();
 
-    const TSValueTypeMetaData *input_schema = nullptr;
-    if (!compiled.input_schemas.empty()) {
-        std::vector<std::pair<std::string, const TSValueTypeMetaData *>> fields;
-        fields.reserve(compiled.input_schemas.size());
-        for (std::size_t i = 0; i < compiled.input_schemas.size(); ++i)
-            fields.emplace_back(std::to_string(i), compiled.input_schemas[i]);
-        input_schema = TypeRegistry::instance().un_named_tsb(fields);
+        const TSValueTypeMetaData *input_schema = nullptr;
+        if (!compiled.input_schemas.empty()) {
+            std::vector<std::pair<std::string, const TSValueTypeMetaData *>> fields;
+            fields.reserve(compiled.input_schemas.size());
+            for (std::size_t i = 0; i < compiled.input_schemas.size(); ++i)
+                fields.emplace_back(std::to_string(i), compiled.input_schemas[i]);
+            input_schema = TypeRegistry::instance().un_named_tsb(fields);
+        }
+
+        WiringNodeSchema node_schema;
+        node_schema.input = input_schema;
+        node_schema.output = compiled.output_schema;
+
+        WiringPortRef ref = w.add_node(
+            std::type_index(typeid(nested_marker<G>)), node_schema,
+            std::span<const WiringPortRef>{inputs.data(), inputs.size()}, Value{},
+            [&]() {
+                NodeTypeMetaData meta;
+                meta.display_name = G::name;
+                meta.input_schema = input_schema;
+                meta.output_schema = compiled.output_schema;
+
+                SingleNestedGraphNodeSpec spec;
+                spec.graph_builder = std::move(compiled.graph_builder);
+                spec.input_bindings = std::move(compiled.input_bindings);
+                spec.output_binding = compiled.output_binding;
+
+                NodeBuilder builder = single_nested_graph_node(std::move(meta), std::move(spec));
+                builder.input_endpoint(graph_wiring_detail::input_endpoint_for_sources(
+                    input_schema, std::span<const WiringPortRef>{inputs.data(), inputs.size()}));
+                return builder;
+            });
+        return Port<OutS>{w, std::move(ref)};
     }
+};
 
-    WiringNodeSchema node_schema;
-    node_schema.input = input_schema;
-    node_schema.output = compiled.output_schema;
-
-    WiringPortRef ref = w.add_node(
-        std::type_index(typeid(nested_marker<G>)), node_schema,
-        std::span<const WiringPortRef>{inputs.data(), inputs.size()}, Value{},
-        [&]() {
-            NodeTypeMetaData meta;
-            meta.display_name = G::name;
-            meta.input_schema = input_schema;
-            meta.output_schema = compiled.output_schema;
-
-            SingleNestedGraphNodeSpec spec;
-            spec.graph_builder = std::move(compiled.graph_builder);
-            spec.input_bindings = std::move(compiled.input_bindings);
-            spec.output_binding = compiled.output_binding;
-
-            NodeBuilder builder = single_nested_graph_node(std::move(meta), std::move(spec));
-            builder.input_endpoint(graph_wiring_detail::input_endpoint_for_sources(
-                input_schema, std::span<const WiringPortRef>{inputs.data(), inputs.size()}));
-            return builder;
-        });
-    return Port<OutS>{w, std::move(ref)};
+// parameter schemas == argument schemas (deduced)
+template <class G, class OutS, class... S> Port<OutS> nested_call(Wiring &w, const Port<S> &...args) {
+    return nested_fn<G, OutS, S...>::call(w, args...);
 }
 
 // convenience: (TS<Int>...) -> TS<Int> sub-graphs
